@@ -37,6 +37,7 @@ fn run() -> Result<i32, Harness> {
         Some("check") => match pos.get(1).map(|s| s.as_str()) {
             Some("C18") => checks::c18::check(&cfg),
             Some("C17") => checks::c17::check(&cfg),
+            Some("C16") => checks::c16::check(&cfg),
             _ => usage(),
         },
         Some("replay") => {
@@ -45,6 +46,7 @@ fn run() -> Result<i32, Harness> {
             let got = match v.property.as_str() {
                 "C18" => checks::c18::replay(&cfg, &v)?,
                 "C17" => checks::c17::replay(&cfg, &v)?,
+                "C16" => checks::c16::replay(&cfg, &v)?,
                 other => return Err(Harness(format!("no replay for {other}"))),
             };
             match got {
